@@ -392,7 +392,20 @@ func init() {
 		return "ok n=" + strconv.Itoa(len(cl.members))
 	})
 	register("c.add", func(a []string) string {
-		if _, err := cl.addMember(); err != nil {
+		// c.add [nosync] [tsize=<n>]: the new member may be configured with its own table size
+		saved, had := cl.opts["tsize"]
+		for _, x := range a {
+			if strings.HasPrefix(x, "tsize=") {
+				cl.opts["tsize"] = x[6:]
+			}
+		}
+		_, err := cl.addMember()
+		if had {
+			cl.opts["tsize"] = saved
+		} else {
+			delete(cl.opts, "tsize")
+		}
+		if err != nil {
 			return "err:" + err.Error()
 		}
 		if len(a) == 0 || a[0] != "nosync" {
